@@ -151,6 +151,29 @@ def convenience_items():
                             "or-left": (a | c, T.ComplexCriterion(OR, ra, c2)), "not": (~a, T.Not(ra)),
                             "and-both": (a & b, T.ComplexCriterion(AND, ra, rb)), "alone": (a, ra)}[outer]
                 yield ("convenience", inner, n, outer), obj, ref
+    # FILTER(WHERE ..) of an aggregate / window function: several filters are ONE conjunction (judged on the text inside the clause)
+    class FilterText:
+        def __init__(self, f):
+            self.f = f
+
+        def get_sql(self, ctx):
+            s_ = self.f.get_sql(ctx)
+            i = s_.index("FILTER(WHERE ") + len("FILTER(WHERE ")
+            return s_[i:s_.rindex(")")]
+
+    for shape in range(6):
+        def crits():
+            L = Leafs()
+            p_, q_, r_, s2 = [L.field() == i for i in range(4)]
+            return [[p_ | q_, r_], [p_, q_ | r_], [p_ | q_, r_ | s2], [p_ & q_, r_ | s2], [T.ComplexCriterion(P.enums.Boolean.xor_, p_, q_), r_], [p_ | q_, r_, s2]][shape]
+        for how in ("one-call", "chained"):
+            cs = crits()
+            agg = fn.Sum(T.Field("v")).filter(*cs) if how == "one-call" else None
+            if agg is None:
+                agg = fn.Sum(T.Field("v"))
+                for c_ in cs:
+                    agg = agg.filter(c_)
+            yield ("convenience", "agg-filter", shape, how), FilterText(agg), chain(AND, crits())
     # a % b is the function call MOD(a, b) whatever its position (the reference object uses the plain Function class)
     for pk in list(ARITH) + ["neg", "eq"]:
         for pos in range(KINDS[pk][0]):
